@@ -278,5 +278,23 @@ theorem ni_stepOp {b : Bag} (h : NI b) (hr : Rect b) (op : Op) (hne : ¬ NameEdi
       · rename_i r hrr
         have s := sameShape_replaceMatchChars hrr
         exact h.keys s.keys s.index s.next
+  | mask refseq start len mr nogap noref =>
+    simp only [Model.stepOp]
+    split
+    · exact h
+    · split
+      · exact h
+      · rename_i r hrr
+        have s := sameShape_maskBag hrr
+        exact h.keys s.keys s.index s.next
+  | maskOcc refseq maxOcc mr =>
+    simp only [Model.stepOp]
+    split
+    · exact h
+    · split
+      · exact h
+      · rename_i r hrr
+        have s := sameShape_maskOccBag hrr
+        exact h.keys s.keys s.index s.next
 
 end Gv.Proofs.BagAbs
